@@ -111,6 +111,36 @@ static void rwaiter_counted (void *a) {
 	vrt_releasing (&mu, 0); nsync_mu_runlock (&mu);
 }
 
+/* MODE 2: a writer waits on the cv; a reader signals it while holding only a read lock (the waiter is then
+   transferred to the mutex queue by wake_waiters, which works on the mutex word under its spinlock) while other
+   readers come and go -- exclusion must hold when the writer returns from the wait. */
+static void m2_writer (void *a) {
+	nsync_mu_lock (&mu); vrt_acquired (&mu, 1);
+	while (!go_flag) checked_wait (1, 0, 0);
+	tokens++;                       /* a write section */
+	vrt_releasing (&mu, 1); nsync_mu_unlock (&mu);
+}
+static void m2_rsignaller (void *a) {
+	/* the flag is set in a short write section, the signal is issued under a READ lock */
+	nsync_mu_lock (&mu); vrt_acquired (&mu, 1); go_flag = 1; vrt_releasing (&mu, 1); nsync_mu_unlock (&mu);
+	nsync_mu_rlock (&mu); vrt_acquired (&mu, 0);
+	if (vrt_rand (2)) nsync_cv_signal (&cv); else nsync_cv_broadcast (&cv);
+	vrt_point ("after-signal-under-rlock");
+	vrt_releasing (&mu, 0); nsync_mu_runlock (&mu);
+	nsync_cv_broadcast (&cv);      /* in case the writer started waiting only after the first signal */
+}
+static void m2_reader (void *a) {
+	int k;
+	for (k = 0; k < 3; k++) {
+		if (vrt_rand (2)) { nsync_mu_rlock (&mu); }
+		else if (!nsync_mu_rtrylock (&mu)) continue;
+		vrt_acquired (&mu, 0);
+		(void) tokens;
+		vrt_point ("reading");
+		vrt_releasing (&mu, 0); nsync_mu_runlock (&mu);
+	}
+}
+
 static void debugger (void *a) {
 	int k;
 	char buf[200];
@@ -125,7 +155,7 @@ static void debugger (void *a) {
 }
 
 int main (void) {
-	int mode = vrt_opt ("MODE", (int) vrt_rand (2));
+	int mode = vrt_opt ("MODE", (int) vrt_rand (3));
 	int i;
 	static char nm[12][8];
 	vrt_register (&mu, sizeof (mu), "mu0");
@@ -149,6 +179,11 @@ int main (void) {
 			if (n > 0) vrt_thread (nm[6 + i], producer, (void *) (long) n);
 		}
 		if (any_cancel && vrt_rand (2)) vrt_thread ("ntf", notifier, NULL);
+	} else if (mode == 2) {
+		vrt_thread ("w", m2_writer, NULL);
+		vrt_thread ("rs", m2_rsignaller, NULL);
+		vrt_thread ("r1", m2_reader, NULL);
+		if (vrt_rand (2)) vrt_thread ("r2", m2_reader, NULL);
 	} else {
 		int nr = 2 + (int) vrt_rand (2);
 		for (i = 0; i < nr; i++) { snprintf (nm[i], 8, "r%d", i); vrt_thread (nm[i], rwaiter_counted, NULL); }
